@@ -551,6 +551,7 @@ func serialRule(c *core.Ctx, rel, typ, meth, entryMeth string) {
 	var ranges []*ssa.Range
 	var emitRange *ssa.Range // the range loop whose entries are appended
 	var appends int
+	var bufWrite *ssa.Call // the emission when the accumulator is a bytes.Buffer
 	entryCalls := 0
 	for _, b := range fn.Blocks {
 		for _, ins := range b.Instrs {
@@ -568,6 +569,23 @@ func serialRule(c *core.Ctx, rel, typ, meth, entryMeth string) {
 									if rg, ok := nx.Iter.(*ssa.Range); ok {
 										entryCalls++
 										emitRange = rg
+									}
+								}
+							}
+						}
+					}
+					appends++
+				}
+				// buf.Write(entry.Bytes()) on a bytes.Buffer is the same emission
+				if cal := x.Call.StaticCallee(); cal != nil && cal.Pkg != nil && cal.Pkg.Pkg.Path() == "bytes" && cal.Name() == "Write" && len(x.Call.Args) == 2 {
+					if call, ok := x.Call.Args[1].(*ssa.Call); ok {
+						if ec := call.Call.StaticCallee(); ec != nil && ec.Name() == entryMeth {
+							if ex, ok := call.Call.Args[0].(*ssa.Extract); ok && ex.Index == 2 {
+								if nx, ok := ex.Tuple.(*ssa.Next); ok {
+									if rg, ok := nx.Iter.(*ssa.Range); ok {
+										entryCalls++
+										emitRange = rg
+										bufWrite = x
 									}
 								}
 							}
@@ -594,6 +612,9 @@ func serialRule(c *core.Ctx, rel, typ, meth, entryMeth string) {
 			for _, ins := range b.Instrs {
 				if call, ok := ins.(*ssa.Call); ok {
 					if bi, ok := call.Call.Value.(*ssa.Builtin); ok && bi.Name() == "append" {
+						appendBlock = b
+					}
+					if call == bufWrite {
 						appendBlock = b
 					}
 				}
@@ -623,7 +644,36 @@ func serialRule(c *core.Ctx, rel, typ, meth, entryMeth string) {
 			}
 		}
 	}
-	// the accumulator returned must be the loop's accumulator
+	// with a bytes.Buffer accumulator the result is that buffer's Bytes() and nothing else is written to it
+	if bad == "" && bufWrite != nil {
+		okRet := false
+		for _, b := range fn.Blocks {
+			for _, ins := range b.Instrs {
+				switch x := ins.(type) {
+				case *ssa.Return:
+					if call, ok := x.Results[0].(*ssa.Call); ok {
+						if cal := call.Call.StaticCallee(); cal != nil && cal.Pkg != nil && cal.Pkg.Pkg.Path() == "bytes" && cal.Name() == "Bytes" && call.Call.Args[0] == bufWrite.Call.Args[0] {
+							okRet = true
+							continue
+						}
+					}
+					okRet = false
+					bad = "the serialiser does not return the accumulating buffer's Bytes()"
+				case *ssa.Call:
+					if cal := x.Call.StaticCallee(); cal != nil && cal.Pkg != nil && cal.Pkg.Pkg.Path() == "bytes" && x != bufWrite {
+						switch cal.Name() {
+						case "Bytes", "Grow", "NewBuffer", "Len":
+						default:
+							bad = "the accumulating buffer is also touched by bytes." + cal.Name() + ": octets other than the entries can be added or dropped"
+						}
+					}
+				}
+			}
+		}
+		if bad == "" && !okRet {
+			bad = "the serialiser does not return the accumulating buffer's Bytes()"
+		}
+	}
 	c.Decide(bad == "", "C16-SERIAL", key, pos, "one range over the receiver, one append of entry."+entryMeth+"() per entry", bad)
 }
 
